@@ -283,7 +283,9 @@ func (fr *frame) contractCall(v ssa.Value, callee *ssa.Function, ct *Contract, a
 			u.bindingError(fmt.Sprintf("precondition %d of %s: %v", k+1, ct.Key, err))
 			continue
 		}
-		if o := fr.obligeO("pre", fmt.Sprintf("precondition of %s: %s", ct.Key, rq.Src), pos.Pos(), t); o != nil {
+		if fr.contract != nil && fr.contract.AssumePre[shortCalleeName(ct.Key)] {
+			u.note("%s: precondition of %s assumed at the call site (assumepre): %s", fr.fn.Name(), ct.Key, rq.Src)
+		} else if o := fr.obligeO("pre", fmt.Sprintf("precondition of %s: %s", ct.Key, rq.Src), pos.Pos(), t); o != nil {
 			o.Extra = extra
 			if len(ct.Props) > 0 {
 				// a caller-side obligation belongs to the properties of the callee's contract
@@ -847,7 +849,9 @@ func (fr *frame) contractCallSigNames(v ssa.Value, ct *Contract, sig *types.Sign
 			u.bindingError(fmt.Sprintf("precondition %d of %s: %v", k+1, ct.Key, err))
 			continue
 		}
-		if o := fr.obligeO("pre", fmt.Sprintf("precondition of %s: %s", ct.Key, rq.Src), pos.Pos(), t); o != nil {
+		if fr.contract != nil && fr.contract.AssumePre[shortCalleeName(ct.Key)] {
+			u.note("%s: precondition of %s assumed at the call site (assumepre): %s", fr.fn.Name(), ct.Key, rq.Src)
+		} else if o := fr.obligeO("pre", fmt.Sprintf("precondition of %s: %s", ct.Key, rq.Src), pos.Pos(), t); o != nil {
 			o.Extra = extra
 			if len(ct.Props) > 0 {
 				// a caller-side obligation belongs to the properties of the callee's contract
@@ -1437,4 +1441,12 @@ func unionProps(a, b []string) []string {
 		}
 	}
 	return out
+}
+
+// shortCalleeName: "(*T).M" -> "M", "pkg.F" / "F" -> "F"
+func shortCalleeName(key string) string {
+	if i := strings.LastIndex(key, "."); i >= 0 {
+		return key[i+1:]
+	}
+	return key
 }
